@@ -108,6 +108,8 @@ def cases(tier):
             yield Case("origin:%s:%s" % (fn, form),
                        {"kind": "origin", "fn": fn, "form": form, "tier": tier},
                        fn not in ("structure_function_kolmogorov", "stf_kolmogorov"))
+    for fn in ORIGIN_FUNCS:
+        yield Case("repeat:%s" % fn, {"kind": "repeat", "fn": fn})
     for r0 in _r0s(tier):
         for L0 in _L0s(tier):
             yield Case("forms:r0=%g:L0=%g" % (r0, L0), {"kind": "forms", "r0": r0, "L0": L0, "tier": tier})
@@ -210,8 +212,46 @@ def _screen_constant(r0, L0, o):
 
 # ----------------------------------------------------------------------------- evaluate
 
+def _repeat(p):
+    """Every formula is evaluated repeatedly on ONE array object (an L0 / r0 sweep over the same distance
+    matrix): each evaluation must give what a fresh copy of the array gives - in particular D(0) = 0 on every
+    call - and the array must still hold the separations afterwards.  (Added after a seeded change wrote the
+    r = 0 placeholder into the caller's array, so that only the second call was wrong.)"""
+    o = Out()
+    turb, sc, kl = _funcs()
+    calls = {
+        "phase_covariance": lambda r, a, b: turb.phase_covariance(r, a, b),
+        "structure_function_vk": lambda r, a, b: sc.structure_function_vk(r, a, b),
+        "structure_function_kolmogorov": lambda r, a, b: sc.structure_function_kolmogorov(r, a),
+        "stf_kolmogorov": lambda r, a, b: kl.stf_kolmogorov(r),
+        "stf_vonKarman": lambda r, a, b: kl.stf_vonKarman(r, b),
+        "stf_vonKarman_yao": lambda r, a, b: kl.stf_vonKarman_yao(r, b),
+    }
+    f = calls[p["fn"]]
+    base = numpy.array([[0., 0.3, 1.], [0.3, 0., 2.5], [1., 2.5, 0.]])
+    for dt in (numpy.float64, numpy.float32):
+        for layout in ("C", "F", "1d"):
+            arr = numpy.array(base, dtype=dt, order="F" if layout == "F" else "C")
+            if layout == "1d":
+                arr = numpy.array(base[0], dtype=dt)
+            keep = arr.copy()
+            sub = "%s:%s" % (numpy.dtype(dt).name, layout)
+            sweep = [(0.1, 5.0), (0.2, 20.0), (0.1, 5.0), (1.0, 100.0)]
+            for k, (a, b) in enumerate(sweep):
+                got = numpy.asarray(f(arr, a, b))
+                want = numpy.asarray(f(keep.copy(), a, b))
+                o.stat("lib_calls", 2)
+                o.check("same_array_reused_gives_same_values", got.shape == want.shape and
+                        numpy.array_equal(got, want, equal_nan=True), sub="%s:call=%d" % (sub, k),
+                        detail={"got": got, "fresh": want})
+                o.check("separations_argument_unchanged", arr.shape == keep.shape and arr.dtype == keep.dtype and
+                        numpy.array_equal(arr, keep), sub="%s:call=%d" % (sub, k), detail={"now": arr, "was": keep})
+    return o
+
+
 def evaluate(p):
-    fn = {"origin": _origin, "forms": _forms, "kolmo": _kolmo, "kl": _kl, "psd": _psd, "gram": _gram}[p["kind"]]
+    fn = {"origin": _origin, "forms": _forms, "kolmo": _kolmo, "kl": _kl, "psd": _psd, "gram": _gram,
+          "repeat": _repeat}[p["kind"]]
     # 0 * inf, overflow of K_{5/6} at 0 and the like are outcomes to be judged, not warnings to print
     with warnings.catch_warnings(), numpy.errstate(all="ignore"):
         warnings.simplefilter("ignore")
